@@ -429,6 +429,8 @@ HAND_VALID = [
     ("[CH3:1][Br:2].[OH-:3]>>[CH3:1][OH:2].[Br-:3]", "[CH3:1][Br:2].[OH-:3]>>[CH3:1][OH:3].[Br-:2]"),
     ("[CH2:1]=[CH:2][CH3:3]>>[CH3:1][CH:2]=[CH2:3]", "[CH2:3]=[CH:2][CH3:1]>>[CH3:3][CH:2]=[CH2:1]"),
     ("[CH2:1]=[CH:2][CH3:3]>>[CH3:1][CH:2]=[CH2:3]", "[CH2:1]=[CH:2][CH3:3]>>[CH2:1]=[CH:2][CH3:3]"),
+    # unmapped spectator atoms are not part of the mapping (drop_non_aam=True)
+    ("[CH3:1][Br:2].[OH-:3].O.CCO>>[CH3:1][OH:3].[Br-:2].O.CCO", "[CH3:5][Br:6].[OH-:7]>>[CH3:5][OH:7].[Br-:6]"),
 ]
 
 
